@@ -46,6 +46,8 @@ ERR = {0: "NO_ERROR", 1: "PROTOCOL_ERROR", 2: "INTERNAL_ERROR", 3: "FLOW_CONTROL
 
 def step_of(e):
     """TLA+ event record -> harness step."""
+    if e["ev"] == "race":
+        return {"a": "race", "s": e["s"], "n": e["n"], "code": e["code"]}
     if e["ev"] == "hc":
         return {"a": "h", "s": e["s"], "op": e["op"], "n": e["n"]}
     st = {"a": "c", "k": e["k"], "s": e["s"], "n": e["n"], "p": e["p"], "es": e["es"], "inc": e["inc"],
@@ -282,15 +284,15 @@ U = 13107   # 65535 / 5: five of these fill the connection receive window exactl
 
 def check_c33(ctx):
     q = ctx.tier == "quick"
-    mc = {"MAXSID": 3, "SIDS": "{1,3}", "STEPS": 4 if q else 5}
+    mc = {"MAXSID": 3, "SIDS": "{1,3}", "STEPS": 4 if q else 5, "CLS": "ClOne" if q else "ClZeroOne"}
     ctx.cov["constants"]["MC_Conn33"] = mc
     ctx.tlc_must_pass(SPEC, "ConnMC", "Conn_MC33.cfg", defines=mc, timeout=2400, coverage=not q)
     cases = []
     for sw, num in ((3 * U, 480 if q else 2400), (65535, 160 if q else 800)):
-        g = defs(SW0=sw, KINDS='{"HEADERS","DATA","RST"}', REQS='{"post","get"}',
+        g = defs(SW0=sw, KINDS='{"HEADERS","DATA","RST","RACE"}', REQS='{"post","get"}',
                  DATALENS="{0,1,%d,%d,%d,%d}" % (U, 2 * U, 3 * U, 3 * U + 1), PADS="{0,1,256}", CLS="ClSome",
                  HOPS='{"read","ret","write","closebody"}', READLENS="{1,%d,65535}" % U, STEPS=9, MINSTEPS=6,
-                 HEAVY='{"DATA","h-read"}')
+                 HEAVY='{"DATA","h-read","RACE"}')
         ctx.cov["constants"]["Gen_C33_sw%d" % sw] = g
         cases += gen(ctx, g, num, 150, "C33")
     ctx.cov["rule"] = ("cases = TLC-simulated behaviours of GenConn (HEADERS/DATA with padding/RST_STREAM, handler "
@@ -333,13 +335,13 @@ def check_c35(ctx):
     ctx.tlc_must_pass(SPEC, "ConnMC", "Conn_MC35.cfg", defines=mc, timeout=2400, coverage=not q)
     cases = []
     g = defs(MAXS=2, SIDS="{1,2,3,5,7}", KINDS=ALLKINDS, REQS=ALLREQS, TRAILERS='{"trailers","trailerspseudo","trailersupper"}',
-             DATALENS="{0,1,%d}" % U, PADS="{0,1}", WUINCS="{0,1,2147483647}", IWS="IwsAll", MFS="MfsAll",
+             DATALENS="{0,1,%d}" % U, PADS="{0,1}", CLS="ClZero", WUINCS="{0,1,2147483647}", IWS="IwsAll", MFS="MfsAll",
              HOPS='{"read","write","ret"}', STEPS=7, MINSTEPS=3, MAXHDRS=5, HEAVY='{"HEADERS"}', FIRSTH="FALSE")
     ctx.cov["constants"]["Gen_C35"] = g
     cases += gen(ctx, g, 450 if q else 2000, 150, "C35")
     # every sequence of 2 (thorough: 3, the first one opening a stream) stimuli over a smaller alphabet
     gx = defs(MAXS=2, SIDS="{1,3}", KINDS='{"HEADERS","NEH","DATA","RST","WU","SETTINGS","PING","CONT"}',
-              REQS='{"get","post","upper","connhdr"}', TRAILERS='{"trailers"}', DATALENS="{1}", PADS="{0}",
+              REQS='{"get","post","upper","connhdr"}', TRAILERS='{"trailers"}', DATALENS="{0,1}", PADS="{0}", CLS="ClZero",
               WUINCS="{0,1}", IWS="Absent", MFS="MfsFlow", HOPS='{"read","write","ret"}', WRITELENS="{1}",
               STEPS=2, MINSTEPS=1, FIRSTH="FALSE")
     ctx.cov["constants"]["Gen_C35_exhaustive2"] = gx
